@@ -101,11 +101,14 @@ def C16_shapes_statement : Prop :=
 of the sub-paths since the last painting operator / `n`; graphics state, saved states and colour spaces
 equal; operand stack arbitrary).  Excluded with explicit decidable hypotheses/projections:
 * the ORDER of a rectangle's four points (`eraseRectPts`; open finding `ltrect-pts-canonical-order`),
-* `supported`: no pattern colour (open finding `pattern-colour-not-recorded`) and `sc`-family operand
-  counts 1, 3, 4 (pdfminer ignores `sc` in colour spaces with another number of components). -/
+* `supported`: no `sc`-family operator while a Pattern space is current (open finding
+  `pattern-colour-not-recorded`) and `sc`-family operand counts 1, 3, 4 (pdfminer ignores `sc` in colour
+  spaces with another number of components, open finding `colour-arity-unsupported`).
+Included since round 3: operators with the right NUMBER of operands of which some are not numbers
+(`SOp.bad`, and a name given to `sc…` outside a Pattern space): ignored by specification and model alike. -/
 theorem C16_shapes_partial (rot : Int) (mb : Rect) (res : List (String × CsSpec)) (prog : List SOp)
     (hdev : devOk (initSpaces res)) (hwf : specWf rot mb res prog = true)
-    (hsup : prog.all supported = true) :
+    (hsup : supported (initSpaces res) prog (initS (pageCtm rot mb.1 mb.2.1 mb.2.2.1 mb.2.2.2)) = true) :
     ∃ shapes, runPage rot mb res (progTokens prog) = .ok shapes ∧
       (shapes.filter hasSeg).map eraseRectPts = (specPage rot mb res prog).map eraseRectPts := by
   obtain ⟨x0, y0, x1, y1⟩ := mb
@@ -121,12 +124,13 @@ theorem C16_shapes_partial (rot : Int) (mb : Rect) (res : List (String × CsSpec
  1 1 5 5 re 7 7 l B* Q 0 0 m 1 1 l n 9 9 m 8 8 l s`. -/
 def exampleProg : List SOp :=
   [.cm 2 0 0 2 10 20, .q, .w (1/2), .d [3, 2] 0, .rgb true 1 0 0, .cs false "DeviceCMYK",
-   .sc .sc false [0, 0, 0, 1] none, .m (1, 2), .seg (.l (3, 4)), .seg (.c (5, 6) (7, 8) (9, 10)), .h,
+   .sc .sc false [0, 0, 0, 1] none, .bad .rg [.num 0, .num 1, .name "X"], .sc .scn false [1, 1, 1] (some "Nm"),
+   .bad .cm [.num 1, .arr [], .num 0, .num 1, .num 0, .num 0], .m (1, 2), .bad .l [.name "a", .num 2], .seg (.l (3, 4)), .seg (.c (5, 6) (7, 8) (9, 10)), .h,
    .re 1 1 5 5, .seg (.l (7, 7)), .paint .Bstar false true true true, .Q,
    .m (0, 0), .seg (.l (1, 1)), .n, .m (9, 9), .seg (.l (8, 8)), .paint .s true true false false]
 
 example : devOk (initSpaces []) ∧ specWf 90 (0, 0, 612, 792) [] exampleProg = true ∧
-    exampleProg.all supported = true ∧ (specPage 90 (0, 0, 612, 792) [] exampleProg).length = 4 := by
+    supported (initSpaces []) exampleProg (initS (pageCtm 90 0 0 612 792)) = true ∧ (specPage 90 (0, 0, 612, 792) [] exampleProg).length = 4 := by
   refine ⟨⟨by decide +kernel, by decide +kernel, by decide +kernel⟩, by decide +kernel, by decide +kernel,
     by decide +kernel⟩
 
@@ -184,6 +188,17 @@ theorem C16_cs_resets_colour (st : IState) (name : String) (sp : CSpace) (h : cs
       st'.ctm = st.ctm ∧ st'.curpath = st.curpath ∧ st'.out = st.out := by
   refine ⟨doSelectSpace st false sp, by simp [call, h], ?_⟩
   simp [doSelectSpace, setColourOpt, setSpace, initialColour_eq_iso]
+
+/-! ## Operands that are not numbers -/
+
+/-- An operator that takes numbers and is given the right NUMBER of operands of which at least one is not
+a number (any position; `m l c v y re w cm g G rg RG k K` and the `sc` family in a 1/3/4-component space)
+is ignored: the model run on its tokens succeeds and stays in simulation with the UNCHANGED specification
+state (colours, width, CTM, path, shapes all as before). -/
+theorem C16_ill_typed_ignored (cs : SpaceMap) (st : IState) (ss : SState) (hs : Sim cs st ss) (k : OpK)
+    (args : List Operand) (hok : opOk cs ss (.bad k args) = true) (hsup : supOk ss (.bad k args) = true) :
+    ∃ st', execute (tokens (.bad k args)) st = .ok st' ∧ Sim cs st' ss :=
+  sim_bad cs st ss hs k args hok hsup
 
 /-! ## Tables regenerated from the Python source agree with ISO 32000-1 -/
 
